@@ -32,18 +32,18 @@ lazily-normalising copy is normalised on access; the flat alternative never is (
 def pick (m : Mode) (l : Bool) (b f : Doc) : Doc :=
   if m = .flat then f else if l then b.normalize else b
 
-theorem size_pick (m l b f) : (pick m l b f).size ≤ 2 * b.size + f.size := by
+theorem size_pick (m l b f) : (pick m l b f).size < (Doc.choice l b f).size := by
   have := size_normalize b
-  have := size_pos b
+  simp only [Doc.size]
   unfold pick; split
   · omega
-  · split <;> omega
+  · split <;> simp_all <;> omega
 
 /-- `Nest(column - indent, doc).normalize()` — the evaluation of `align(doc)`. -/
 def alignAt (k : Int) (d : Doc) : Doc := (Doc.nest k d).normalize
 
-theorem size_alignAt (k d) : (alignAt k d).size ≤ 2 + 2 * d.size := by
-  have := size_normalize (.nest k d); simp only [Doc.size] at this; unfold alignAt; omega
+theorem size_alignAt (k d) : (alignAt k d).size < (Doc.align d).size := by
+  have := size_normalize (.nest k d); simp only [Doc.size, Doc.rsize] at this ⊢; unfold alignAt; omega
 
 /-- fast_fitting_predicate (layout.py:45-121) -/
 def fitsFast (cfg : Cfg) (mw : Int) (left : Int) (stk : List Triple) : Bool :=
@@ -74,8 +74,8 @@ decreasing_by
   all_goals first
     | omega
     | (have := Doc.sizes_le_sizesF ‹List Doc›; omega)
-    | (apply Nat.lt_of_le_of_lt (Nat.add_le_add_right (size_pick _ _ _ _) _); omega)
-    | (apply Nat.lt_of_le_of_lt (Nat.add_le_add_right (size_alignAt _ _) _); omega)
+    | (exact Nat.add_lt_add_right (size_pick _ _ _ _) _)
+    | (exact Nat.add_lt_add_right (size_alignAt _ _) _)
     | (apply Nat.lt_of_le_of_lt (Nat.add_le_add_right (Cfg.size_evC _ _ _ _) _); omega)
 
 /-- smart_fitting_predicate (layout.py:124-208) -/
@@ -107,8 +107,8 @@ decreasing_by
   all_goals first
     | omega
     | (have := Doc.sizes_le_sizesF ‹List Doc›; omega)
-    | (apply Nat.lt_of_le_of_lt (Nat.add_le_add_right (size_pick _ _ _ _) _); omega)
-    | (apply Nat.lt_of_le_of_lt (Nat.add_le_add_right (size_alignAt _ _) _); omega)
+    | (exact Nat.add_lt_add_right (size_pick _ _ _ _) _)
+    | (exact Nat.add_lt_add_right (size_alignAt _ _) _)
     | (apply Nat.lt_of_le_of_lt (Nat.add_le_add_right (Cfg.size_evC _ _ _ _) _); omega)
 
 def avail (w rw col i : Int) : Int := min (w - col) (i + rw - col)
@@ -165,8 +165,8 @@ decreasing_by
   all_goals simp only [stkSize, Item.size, Doc.size, Doc.sizesF, stkSize_pushAll]
   all_goals first
     | omega
-    | (apply Nat.lt_of_le_of_lt (Nat.add_le_add_right (size_pick _ _ _ _) _); omega)
-    | (apply Nat.lt_of_le_of_lt (Nat.add_le_add_right (size_alignAt _ _) _); omega)
+    | (exact Nat.add_lt_add_right (size_pick _ _ _ _) _)
+    | (exact Nat.add_lt_add_right (size_alignAt _ _) _)
     | (apply Nat.lt_of_le_of_lt (Nat.add_le_add_right (Cfg.size_evC _ _ _ _) _); omega)
 
 /-- `best_layout(doc, width, ribbon_frac, predicate)` with `rw` the rounded ribbon width. -/
